@@ -464,10 +464,28 @@ def r128(ctx, rep):
                         and any(isinstance(v, ast.Name) for v in vals):
                     hdr_vars.add(name)
                     grew = True
+        # containers this function changes the length of (insert / pop / del / append / extend): positions in them are not
+        # the positions of the source header once the first change has been made
+        resized = set()
+        for x in own_nodes(fn.node):
+            if isinstance(x, ast.Call) and isinstance(x.func, ast.Attribute) and isinstance(x.func.value, ast.Name) and \
+                    x.func.attr in ('insert', 'pop', 'append', 'extend', 'remove'):
+                resized.add(x.func.value.id)
+            elif isinstance(x, ast.Delete):
+                for t in x.targets:
+                    if isinstance(t, ast.Subscript) and isinstance(t.value, ast.Name):
+                        resized.add(t.value.id)
         for c in calls:
             a = c.args[1]
             n += 1
             cons = 'Record(%s, %s)' % (norm(c.args[0])[:30], norm(a)[:30])
+            r0 = c.args[0]
+            if isinstance(r0, ast.Name) and r0.id in resized and isinstance(a, ast.Name) and a.id not in resized:
+                rep.violated('R12.8', fn, cons,
+                             'the record handed to the user\'s function wraps `%s`, a container this function inserts into / removes '
+                             'from, under the field names `%s` of the unchanged header: once a cell has been inserted, a name resolves '
+                             'to a shifted cell' % (r0.id, a.id), c)
+                continue
             if not isinstance(a, ast.Name):
                 rep.undecided('R12.8', fn, cons, 'field names are not a plain variable', c)
                 continue
